@@ -30,6 +30,7 @@ import (
 	"go/parser"
 	"go/token"
 	"io"
+	"log"
 	"os"
 	"os/exec"
 	"path/filepath"
@@ -65,6 +66,8 @@ type c20Facts struct {
 	problems     []string // pieces of the source the extractor could not translate
 	mainFirst    bool     // first statement of main() is the unconditional call tool.RunPackedBinary()
 	mainSrc      string
+	truncates    bool // Pack opens the target so that old content is discarded (os.Create / O_TRUNC)
+	truncSrc     string
 }
 
 type c20Eval struct {
@@ -312,6 +315,7 @@ func c20Extract() (*c20Facts, error) {
 	}
 	ev := &c20Eval{fset: fset, vars: map[string]ast.Expr{}, facts: f}
 	funcs := map[string]*ast.FuncDecl{}
+	methods := map[string]*ast.FuncDecl{}
 	srcOf := map[*token.File][]byte{}
 	text := func(n ast.Node) string {
 		tf := fset.File(n.Pos())
@@ -352,6 +356,9 @@ func c20Extract() (*c20Facts, error) {
 			case *ast.FuncDecl:
 				if v.Recv == nil && v.Body != nil {
 					funcs[v.Name.Name] = v
+				}
+				if v.Recv != nil && v.Body != nil {
+					methods[v.Name.Name] = v
 				}
 			}
 		}
@@ -674,6 +681,49 @@ func c20Extract() (*c20Facts, error) {
 	}
 	f.skipTab = skipTab
 
+	// Pack: how the target file is opened for writing — os.Create truncates, os.OpenFile only with O_TRUNC
+	f.truncates, f.truncSrc = true, "NOT TRANSLATED: reference value"
+	if pk, ok := methods["Pack"]; !ok {
+		problem("method Pack not found")
+	} else {
+		var opens []ast.Node
+		all := true
+		ast.Inspect(pk.Body, func(n ast.Node) bool {
+			c, ok := n.(*ast.CallExpr)
+			if !ok {
+				return true
+			}
+			sel, ok := c.Fun.(*ast.SelectorExpr)
+			if !ok {
+				return true
+			}
+			if x, ok := sel.X.(*ast.Ident); !ok || x.Name != "os" {
+				return true
+			}
+			switch sel.Sel.Name {
+			case "Create":
+				opens = append(opens, c)
+			case "OpenFile":
+				if len(c.Args) >= 2 {
+					flags := text(c.Args[1])
+					if strings.Contains(flags, "O_WRONLY") || strings.Contains(flags, "O_RDWR") || strings.Contains(flags, "O_CREATE") {
+						opens = append(opens, c)
+						if !strings.Contains(flags, "O_TRUNC") {
+							all = false
+						}
+					}
+				}
+			}
+			return true
+		})
+		if len(opens) == 0 {
+			problem("Pack: no os.Create / os.OpenFile of the target recognised")
+		} else {
+			f.truncates = all
+			f.truncSrc = text(opens[0])
+		}
+	}
+
 	// cli/ecal.go: the first statement of main is the unconditional call tool.RunPackedBinary()
 	f.mainFirst = true
 	mpath := filepath.Join(repoDir(), "cli", "ecal.go")
@@ -786,6 +836,8 @@ func c20LeanFile(f *c20Facts) string {
 	fmt.Fprintf(&b, "/-- what the extractor could NOT translate (reference values were used there); must be empty -/\ndef extractProblems : List String := [%s]\n\n", strings.Join(probs, ", "))
 	fmt.Fprintf(&b, "/-- cli/ecal.go: is the first statement of `main` the unconditional call `tool.RunPackedBinary()`?\n    First statement found: `%s` -/\ndef mainCallsRunPackedFirst : Bool := %v\n\n",
 		strings.ReplaceAll(strings.ReplaceAll(f.mainSrc, "-/", "- /"), "/-", "/ -"), f.mainFirst)
+	fmt.Fprintf(&b, "/-- Pack: is the target opened so that its old content is discarded (`os.Create`, or `os.OpenFile` with\n    `O_TRUNC`)? Found: `%s` -/\ndef targetOpenTruncates : Bool := %v\n\n",
+		strings.ReplaceAll(strings.ReplaceAll(f.truncSrc, "-/", "- /"), "/-", "/ -"), f.truncates)
 	b.WriteString("end Ecal.Gen.C20\n")
 	return b.String()
 }
@@ -970,6 +1022,7 @@ func c20Setup() {
 		}
 	})
 	tool.VerifSetOsStderr(io.Discard)
+	log.SetOutput(io.Discard) // util.StdOutLogger of in-process runs
 }
 
 func c20RandString(n int, seed uint64) string {
@@ -1020,6 +1073,20 @@ func c20BuildCLI(out string) error {
 		return fmt.Errorf("go build ./cli: %v: %s", err, oneLine(string(o)))
 	}
 	return os.Rename(tmp, out)
+}
+
+// c20CLIPath returns the CLI executable built for this run (builds it for single-case runs).
+func c20CLIPath() (string, error) {
+	cli, err := filepath.Abs(c20CLIName)
+	if err != nil {
+		return "", err
+	}
+	if _, err := os.Stat(cli); err != nil {
+		if err := c20BuildCLI(cli); err != nil {
+			return "", err
+		}
+	}
+	return cli, nil
 }
 
 // c20RunProc: payload `proc <tree> <rc> <arg-hex,arg-hex…|->`. The real CLI binary is
@@ -1117,6 +1184,9 @@ func c20Run(payload string) string {
 	if fs[0] == "proc" {
 		return c20RunProc(fs)
 	}
+	if fs[0] == "seq" {
+		return c20RunSeq(fs)
+	}
 	if len(fs) != 9 {
 		return "bad-payload"
 	}
@@ -1191,7 +1261,12 @@ func c20Run(payload string) string {
 		}
 	}
 
-	// run it
+	return c20ExecInProcess(exe, trueStart, tree, treeNo, entryText)
+}
+
+// c20ExecInProcess points osArgs[0] at exe and calls the real RunPackedBinary.
+// result: off=<pos|none> <exit=<rc> files=ok | fall | fail | fail-index | misfound | …>
+func c20ExecInProcess(exe string, trueStart int64, tree *c20Tree, treeNo int, entryText string) string {
 	c20Hook.archive, c20Hook.filesHit, c20Hook.files, c20Hook.filesErr = false, false, nil, nil
 	exitCalled, exitCode := 0, 0
 	oldArgs := tool.VerifSetOsArgs([]string{exe})
@@ -1258,6 +1333,173 @@ func c20Run(payload string) string {
 	}
 	CountRun(fmt.Sprintf("files-compared tree%d", treeNo))
 	return res + " files=ok"
+}
+
+// c20RunSeq: payload `seq <first> <mode> <n2> <k2> <t2> <rc> <proc 0|1>` where first is
+// `-` (no target yet), `F:<size>` (the target exists as an unrelated file of that size which
+// ends in a zip end record) or `P:<n1>:<k1>:<t1>` (a first project was packed into the target).
+// The target then gets file mode <mode> (octal, 0 = leave), project <t2> is packed onto the
+// binary (n2, k2) into the SAME target with the real packer. Observed: the target compared
+// byte by byte with the same pack into a fresh file, is it executable, the in-process run,
+// and for proc=1 the start as a real process.
+// result: seq fresh=<same|longer:d|shorter:d|differs> x=<0|1> off=… exit=… files=ok [proc:exit=<rc>:entry=<ran|notrun>]
+func c20RunSeq(fs []string) string {
+	if len(fs) != 8 {
+		return "bad-payload"
+	}
+	mode, _ := strconv.ParseUint(fs[2], 8, 32)
+	n2, _ := strconv.Atoi(fs[3])
+	k2, _ := strconv.Atoi(fs[4])
+	t2, _ := strconv.Atoi(fs[5])
+	rc, _ := strconv.Atoi(fs[6])
+	withProc := fs[7] == "1"
+	target := filepath.Join(c20Scratch, "seq-target.bin")
+	fresh := filepath.Join(c20Scratch, "seq-fresh.bin")
+	src := filepath.Join(c20Scratch, "seq-source.bin")
+	entry := filepath.Join(c20Scratch, "seq-entry.ecal")
+	os.Remove(target)
+	os.Remove(fresh)
+	defer os.Remove(target)
+	defer os.Remove(fresh)
+	defer os.Remove(src)
+	cliLen := 0
+	pack := func(n, kind, treeNo, ret int, dst string) (string, error) {
+		if n < 0 { // the real CLI executable of the tree under test
+			cli, err := c20CLIPath()
+			if err != nil {
+				return "", err
+			}
+			bin, err := os.ReadFile(cli)
+			if err != nil {
+				return "", err
+			}
+			cliLen = len(bin)
+			if err := os.WriteFile(src, bin, 0755); err != nil {
+				return "", err
+			}
+		} else {
+			bin := make([]byte, n)
+			c20Fill(bin, kind, 0)
+			if err := os.WriteFile(src, bin, 0644); err != nil {
+				return "", err
+			}
+		}
+		text := "log(\"" + c20Token + "\")\n" + fmt.Sprintf(c20Trees[treeNo].entry, ret)
+		if err := os.WriteFile(entry, []byte(text), 0644); err != nil {
+			return "", err
+		}
+		p := tool.NewCLIPacker()
+		p.LogOut = io.Discard
+		p.Dir, p.SourceBinary, p.TargetBinary, p.EntryFile = &c20Trees[treeNo].dir, &src, &dst, entry
+		return text, p.Pack()
+	}
+	switch {
+	case fs[1] == "-":
+	case strings.HasPrefix(fs[1], "F:"):
+		size, _ := strconv.Atoi(fs[1][2:])
+		b := make([]byte, size)
+		c20Fill(b, 2, 99)
+		if size >= 22 { // an (empty) zip end-of-central-directory record at the very end
+			copy(b[size-22:], append([]byte("PK\x05\x06"), make([]byte, 18)...))
+		}
+		if err := os.WriteFile(target, b, 0644); err != nil {
+			return "ERR write " + oneLine(err.Error())
+		}
+	case strings.HasPrefix(fs[1], "P:"):
+		f := strings.Split(fs[1], ":")
+		if len(f) != 4 {
+			return "bad-payload"
+		}
+		n1, _ := strconv.Atoi(f[1])
+		k1, _ := strconv.Atoi(f[2])
+		t1, _ := strconv.Atoi(f[3])
+		if _, err := pack(n1, k1, t1, (rc+101)%250, target); err != nil {
+			return "ERR pack1 " + oneLine(err.Error())
+		}
+	default:
+		return "bad-payload"
+	}
+	if mode != 0 {
+		if _, err := os.Stat(target); err == nil {
+			if err := os.Chmod(target, os.FileMode(mode)); err != nil {
+				return "ERR chmod " + oneLine(err.Error())
+			}
+		}
+	}
+	entryText, err := pack(n2, k2, t2, rc, target)
+	if err != nil {
+		return "seq pack2-failed"
+	}
+	if _, err := pack(n2, k2, t2, rc, fresh); err != nil {
+		return "ERR pack-fresh " + oneLine(err.Error())
+	}
+	got, err1 := os.ReadFile(target)
+	want, err2 := os.ReadFile(fresh)
+	if err1 != nil || err2 != nil {
+		return "ERR read"
+	}
+	res := "seq fresh="
+	switch {
+	case bytes.Equal(got, want):
+		res += "same"
+	case len(got) > len(want):
+		res += fmt.Sprintf("longer:%d", len(got)-len(want))
+	case len(got) < len(want):
+		res += fmt.Sprintf("shorter:%d", len(want)-len(got))
+	default:
+		res += "differs"
+	}
+	st, err := os.Stat(target)
+	if err != nil {
+		return "ERR stat"
+	}
+	x := 0
+	if st.Mode()&0111 != 0 {
+		x = 1
+	}
+	res += fmt.Sprintf(" x=%d ", x)
+	srcLen := n2
+	if n2 < 0 {
+		srcLen = cliLen
+	}
+	r := c20ExecInProcess(target, int64(srcLen+len(c20FactsCached().marker)), c20Trees[t2], t2, entryText)
+	if n2 < 0 && strings.HasPrefix(r, "off=") && !strings.HasPrefix(r, "off=none") {
+		// the model does not know the size of the CLI executable: offset relative to its end
+		var pos int
+		fmt.Sscanf(r, "off=%d", &pos)
+		r = fmt.Sprintf("off=cli+%d", pos-cliLen) + r[strings.Index(r, " "):]
+	}
+	res += r
+	if withProc {
+		cwd := filepath.Join(c20Scratch, "cwd")
+		os.RemoveAll(cwd)
+		os.MkdirAll(cwd, 0755)
+		defer os.RemoveAll(cwd)
+		ctx, cancel := context.WithTimeout(context.Background(), 6*time.Second)
+		defer cancel()
+		cmd := exec.CommandContext(ctx, target)
+		cmd.Dir = cwd
+		cmd.Stdin = strings.NewReader("")
+		out, err := cmd.CombinedOutput()
+		if ctx.Err() != nil {
+			return "HANG child process did not end within 6s"
+		}
+		code := 0
+		if err != nil {
+			ee, ok := err.(*exec.ExitError)
+			if !ok {
+				return res + " proc:not-started"
+			}
+			code = ee.ExitCode()
+		}
+		ran := "notrun"
+		if strings.Contains(string(out), c20Token) {
+			ran = "ran"
+		}
+		CountRun("process started")
+		res += fmt.Sprintf(" proc:exit=%d:entry=%s", code, ran)
+	}
+	return res
 }
 
 var c20FactsMemo *c20Facts
@@ -1352,6 +1594,41 @@ func c20Gen(g *Gen) {
 			g.Count("real process")
 			g.Emit(fmt.Sprintf("proc %d %d %s", t, 20+ti*40+ai, as))
 		}
+	}
+	// 1c. sequences: the target already exists (an earlier, other project packed into it, or an
+	//     unrelated file) — the result must depend on the last pack only
+	type seqCase struct {
+		first      string
+		mode       int
+		n2, k2, t2 int
+		proc       bool
+	}
+	var seqs []seqCase
+	// the smallest one first: a big project, then a small one, into the same target
+	seqs = append(seqs, seqCase{"P:9:0:4", 0, 9, 0, 0, false})
+	pairs := [][2]int{{4, 0}, {0, 0}, {0, 4}, {5, 1}, {3, 2}, {2, 3}, {4, 5}}
+	sizes := [][2]int{{5000, 100}, {100, 5000}, {f.bufSize, f.bufSize}, {0, 9000}, {9000, 0}}
+	for pi, pr := range pairs {
+		for si, sz := range sizes {
+			if !amplified && (pi+si)%2 == 1 && pi > 2 {
+				continue
+			}
+			seqs = append(seqs, seqCase{fmt.Sprintf("P:%d:%d:%d", sz[0], (pi+si)%2, pr[0]), []int{0, 0600, 0644, 0755}[(pi+si)%4], sz[1], si % 2, pr[1], false})
+		}
+	}
+	for _, t2 := range []int{0, 1, 4} {
+		seqs = append(seqs, seqCase{"F:300000", 0, 4000, 0, t2, false}, seqCase{"F:300000", 0600, 70, 1, t2, false},
+			seqCase{"F:10", 0644, 4000, 1, t2, false}, seqCase{"-", 0, 4107, 1, t2, false})
+	}
+	// a few with the real CLI executable as source binary (size -1), also started as real processes
+	seqs = append(seqs, seqCase{"P:-1:0:4", 0600, -1, 0, 0, true}, seqCase{"F:30000000", 0600, -1, 0, 1, true}, seqCase{"P:-1:0:0", 0, -1, 0, 4, true})
+	for i, sc := range seqs {
+		p := "0"
+		if sc.proc {
+			p = "1"
+		}
+		g.Count("sequence")
+		g.Emit(fmt.Sprintf("seq %s %o %d %d %d %d %s", sc.first, sc.mode, sc.n2, sc.k2, sc.t2, 30+i, p))
 	}
 	// 2. project trees on binaries whose end lies around the block boundaries
 	for t := range c20Trees {
